@@ -671,4 +671,175 @@ theorem step_effect (P : Params H) (w : World H) (g : Good P w) (op : Op H) (hop
           exact Effect.unchanged _
 
 
+
+/-! ### consequences of the case list -/
+
+/-- an operation that is not accepted leaves the world as it was -/
+theorem step_unchanged (P : Params H) (w : World H) (g : Good P w) (op : Op H) (hop : OpOK P op)
+    (h : (stepOp P w op).2.1.accepted = false) : (stepOp P w op).1 = w := by
+  have e := step_effect P w g op hop
+  generalize (stepOp P w op).1 = w' at e ⊢
+  generalize (stepOp P w op).2.1.accepted = a at e h
+  cases e <;> first | rfl | cases h
+
+theorem findC_committed (w : World H) (id : Nat) (c : Contract H) (hc : findC w.db.contracts id = some c)
+    (rev' : Rev H) (l' : List Root) :
+    findC (committed w id rev' l').db.contracts id = some { c with rev := rev', rows := mkRows 0 l' } := by
+  simp only [committed]
+  rw [findC_mapC _ _ _ _ (by intro c; rfl), hc]
+  simp [(findC_some hc).2]
+
+theorem findC_renewed_new (w : World H) (v2 : Bool) (old new : Nat) (o : Contract H) (nr : Rev H) (clr : Option (Rev H))
+    (hn : findC w.db.contracts new = none) :
+    findC (renewedWorld w v2 old new o nr clr).db.contracts new = some (successor o v2 old new nr) := by
+  simp only [renewedWorld]
+  rw [findC_append, findC_mapC _ _ _ _ (superseded_id new clr), hn]
+  simp [findC_cons, successor]
+
+theorem findC_renewed_old (w : World H) (v2 : Bool) (old new : Nat) (o : Contract H) (nr : Rev H) (clr : Option (Rev H))
+    (ho : findC w.db.contracts old = some o) :
+    findC (renewedWorld w v2 old new o nr clr).db.contracts old = some (superseded new clr o) := by
+  simp only [renewedWorld]
+  rw [findC_append, findC_mapC _ _ _ _ (superseded_id new clr), ho]
+  simp [(findC_some ho).2]
+
+theorem findC_renewed_other (w : World H) (v2 : Bool) (old new : Nat) (o : Contract H) (nr : Rev H) (clr : Option (Rev H))
+    (j : Nat) (h1 : j ≠ old) (h2 : j ≠ new) :
+    findC (renewedWorld w v2 old new o nr clr).db.contracts j = findC w.db.contracts j := by
+  simp only [renewedWorld]
+  rw [findC_append, findC_mapC _ _ _ _ (superseded_id new clr)]
+  cases hj : findC w.db.contracts j with
+  | none =>
+    have : ¬ new = j := fun h => h2 h.symm
+    simp [findC_cons, findC_nil, successor, this]
+  | some c =>
+    have : c.id ≠ old := by rw [(findC_some hj).2]; exact h1
+    simp [this]
+
+/-! ### acceptance: valid requests on usable contracts go through -/
+
+/-- "the store does not reject": a v1 batch on a usable contract whose appended / updated roots are stored,
+with no injected failure, is accepted -/
+theorem rpc1_accepted_of_stored (P : Params H) (w : World H) (g : Good P w) (id : Nat) (acts : List Action) (rn : Nat)
+    (hlk : lockV1 w P id = true)
+    (hs : ∀ a ∈ (record (cacheGet w.cache id) acts).1, a.storedOK w.db.stored = true) :
+    (stepOp P w (.rpc1 id acts rn false none)).2.1.accepted = true := by
+  obtain ⟨c, hc, hv, hl, _⟩ := lockV1_live P w g id hlk
+  have hcid : c.id = id := (findC_some hc).2
+  have hrows : c.rows = mkRows 0 (cacheGet w.cache id) := by
+    have := (g.live c (findC_some hc).1 hl).1
+    rwa [hcid] at this
+  have hrun := Updater.run_eq (Updater.new (cacheGet w.cache id)) acts
+  simp only [stepOp, hlk, Bool.not_true, Bool.false_eq_true, if_false, Bool.false_and]
+  unfold rpcV1
+  simp only [hc]
+  rcases hr : (Updater.new (cacheGet w.cache id)).run acts with ⟨u, oks⟩
+  rw [hr] at hrun
+  simp only [Updater.new, List.nil_append] at hrun
+  subst hrun
+  simp only
+  rw [storeReviseV1_none w.db id _ _ _ c hc hv, hrows]
+  have := replayAll_record w.db.stored (cacheGet w.cache id) acts
+  simp only [mirror] at this
+  rw [this, if_pos (by simpa using hs)]
+  rfl
+
+/-- a valid `ReviseV2Contract` on a live v2 contract whose new roots are stored is accepted -/
+theorem rev2_accepted_of_valid (P : Params H) (w : World H) (g : Good P w) (id : Nat) (c : Contract H)
+    (hc : findC w.db.contracts id = some c) (hv : c.v2 = true) (hl : c.renewedTo = none)
+    (r : V2Revision H) (nr : List Root)
+    (hk : r.sameKeys = true) (hsig : r.sigsOK = true)
+    (hfs : r.rev.filesize = P.sectorSize * nr.length) (hcap : r.rev.filesize ≤ r.rev.capacity)
+    (hmk : r.rev.merkle = P.metaRoot nr) (hs : ∀ x ∈ nr, x ∈ w.db.stored) :
+    (stepOp P w (.rev2 id r nr none)).2.1.accepted = true := by
+  have hcid : c.id = id := (findC_some hc).2
+  have hrows : c.rows = mkRows 0 (cacheGet w.cache id) := by
+    have := (g.live c (findC_some hc).1 hl).1
+    rwa [hcid] at this
+  have hcap' : ¬ r.rev.capacity < P.sectorSize * nr.length := by rw [← hfs]; omega
+  simp only [stepOp]
+  unfold reviseV2
+  simp only [hc, hv, hl, hk, hsig, hfs, hmk, hcap', Bool.not_true, Bool.false_eq_true, if_false, Option.isSome_none,
+    ne_eq, not_true_eq_false]
+  rw [storeReviseV2_none w.db id r.rev _ _ c hc hv, hrows, updateV2Sectors_spec _ _ _ hs]
+  rfl
+
+/-- a well-formed v1 renewal of a usable contract into a fresh id is accepted -/
+theorem renew1_accepted (P : Params H) (w : World H) (g : Good P w) (old new : Nat) (renewal clearing : Rev H)
+    (hlk : lockV1 w P old = true) (hn : findC w.db.contracts new = none)
+    (h1 : clearing.merkle = P.zeroH) (h2 : clearing.filesize = 0) (h3 : clearing.number = P.maxRev)
+    (h4 : renewal.filesize = P.sectorSize * (cacheGet w.cache old).length)
+    (h5 : renewal.merkle = P.metaRoot (cacheGet w.cache old)) :
+    (stepOp P w (.renew1 old new renewal clearing none)).2.1.accepted = true := by
+  obtain ⟨c, hc, hv, hl, _⟩ := lockV1_live P w g old hlk
+  simp only [stepOp, hlk, Bool.not_true, Bool.false_eq_true, if_false]
+  unfold renewV1
+  simp only [h1, h2, h3, h4, h5, ne_eq, not_true_eq_false, if_false]
+  rw [storeRenew_none w.db false old new renewal (some clearing) c hc hv hn]
+  rfl
+
+/-- a well-formed v2 renewal of a live contract into a fresh id is accepted -/
+theorem renew2_accepted (P : Params H) (w : World H) (g : Good P w) (old new : Nat) (fc : Rev H) (force : Bool)
+    (c : Contract H) (hc : findC w.db.contracts old = some c) (hv : c.v2 = true) (hl : c.renewedTo = none)
+    (hn : findC w.db.contracts new = none)
+    (h1 : fc.filesize = c.rev.filesize) (h2 : fc.capacity = c.rev.capacity) (h3 : fc.merkle = c.rev.merkle) :
+    (stepOp P w (.renew2 old new fc force none)).2.1.accepted = true := by
+  have hlive := g.live c (findC_some hc).1 hl
+  rw [(findC_some hc).2] at hlive
+  have hsucc : v2SuccessorId w old new = new := by simp [v2SuccessorId, hc, hl]
+  have h4 : c.rev.merkle = P.metaRoot (cacheGet w.cache old) := hlive.2.2
+  simp only [stepOp, lockV2, hc, hv, hl, hsucc, Bool.not_true, Bool.false_eq_true, if_false, Option.isSome_none,
+    Bool.not_false, Bool.and_self, Bool.or_self, Bool.false_and]
+  unfold renewV2
+  simp only [hc, hv, h1, h2, h3, h4, Bool.not_true, Bool.false_eq_true, if_false, ne_eq, not_true_eq_false]
+  rw [storeRenew_none w.db true old new fc none c hc hv hn]
+  rfl
+
+/-! ### reference counts -/
+
+/-- rows of one contract that reference `r` -/
+def cnt (r : Root) (c : Contract H) : Nat := (c.rows.filter fun p => p.2 == r).length
+
+theorem refs_eq (db : DB H) (r : Root) : refs db r = (db.contracts.map (cnt r)).sum := rfl
+
+theorem sum_mapC_superseded (cs : List (Contract H)) (hn : (cs.map (·.id)).Nodup) (old new : Nat) (clr : Option (Rev H))
+    (o : Contract H) (ho : findC cs old = some o) (r : Root) :
+    ((mapC cs old (superseded new clr)).map (cnt r)).sum + cnt r o = (cs.map (cnt r)).sum := by
+  induction cs with
+  | nil => simp [findC] at ho
+  | cons d cs ih =>
+    simp only [List.map_cons, List.nodup_cons] at hn
+    rw [findC_cons] at ho
+    by_cases hd : d.id = old
+    · simp only [hd, if_true, Option.some.injEq] at ho
+      subst ho
+      have hrest : findC cs old = none := by
+        apply findC_none_of
+        intro c hc e
+        apply hn.1
+        rw [hd, ← e]
+        exact List.mem_map.mpr ⟨c, hc, rfl⟩
+      simp only [mapC, List.map_cons, hd, if_true]
+      have := mapC_of_none cs old (superseded new clr) hrest
+      simp only [mapC] at this
+      rw [this]
+      simp [cnt, superseded]
+      omega
+    · simp only [hd, if_false] at ho
+      have := ih hn.2 ho
+      simp only [mapC, List.map_cons, hd, if_false, List.sum_cons] at this ⊢
+      omega
+
+/-- a renewal moves rows, it neither drops nor duplicates a reference -/
+theorem refs_renewedWorld (P : Params H) (w : World H) (g : Good P w) (v2 : Bool) (old new : Nat) (o : Contract H)
+    (ho : findC w.db.contracts old = some o) (nr : Rev H) (clr : Option (Rev H)) (r : Root) :
+    refs (renewedWorld w v2 old new o nr clr).db r = refs w.db r := by
+  rw [refs_eq, refs_eq]
+  simp only [renewedWorld, List.map_append, List.sum_append, List.map_cons, List.map_nil, List.sum_cons, List.sum_nil]
+  have := sum_mapC_superseded w.db.contracts g.nodup old new clr o ho r
+  have e : cnt r (successor o v2 old new nr) = cnt r o := rfl
+  rw [e]
+  omega
+
+
 end Hostd.Sectors
